@@ -13,6 +13,10 @@ type checkCfg struct {
 	// RunTimeoutS is the wall-clock backstop per run (seconds); a run that
 	// exceeds it twice in fresh processes is reported as a hang.
 	RunTimeoutS int
+	// RefOnHang: on a reproducible wall-clock timeout, re-execute the case with only the
+	// reference side (VERIF_REFERENCE_ONLY=1); if that hangs too, the hang is shared by
+	// fresh and reused objects and says nothing about this property.
+	RefOnHang bool
 	Rule        string
 	Assumptions []string
 	Real        []string
@@ -24,7 +28,7 @@ type checkCfg struct {
 var checks = map[string]*checkCfg{
 	"C13": {
 		Property: "C13", Engine: "reuse", Level: "exploration",
-		Runs: map[string]int{"quick": 6000, "thorough": 400000}, Chunk: 25, RunTimeoutS: 120,
+		Runs: map[string]int{"quick": 6000, "thorough": 400000}, Chunk: 25, RunTimeoutS: 90, RefOnHang: true,
 		Rule: "one case = one seeded operation history (5-60 operations) on long-lived reusable objects (HarfbuzzShaper, harfbuzz.Buffer, font.Face, shaping.Segmenter, LineWrapper, segmenter.Segmenter) over a pool of corpus faces, several of them sharing one parsed font with different variations/ppem; cache sizes and op mix are per-run swarm choices. Every operation is compared with the same call on a freshly constructed object and earlier results are re-compared until their documented invalidation point. distinct = distinct hash of the generated case; non-trivial = at least one reuse probe fired in the run (cache hit on a font seen before, other face of same font, eviction possible, in-place face change followed by a query/shape, buffer/segmenter/wrapper actually reused, paragraph abandoned midway, iterators interleaved).",
 		Assumptions: []string{
 			"a freshly constructed object is the specification (its own correctness is C01-C04/C06/C07, not decided here)",
@@ -69,3 +73,21 @@ var checks = map[string]*checkCfg{
 
 // order in which `check all` runs
 var checkOrder = []string{"C13", "C14", "C16", "C09", "C17", "C06", "C07"}
+
+func init() {
+	checks["C09"] = &checkCfg{
+		Property: "C09", Engine: "faultdisk", Level: "fault_enumeration", Instrument: true,
+		Runs: map[string]int{"quick": 12000, "thorough": 2500000}, Chunk: 100, RunTimeoutS: 180,
+		Rule: "one case = one corpus font image (sfnt, TTC, WOFF, dfont) served by the simulated disk with a fault plan, then opened (ParseTTC or FontMap.AddFont) and, if it opens, queried exhaustively per face (cmap, advances, extents, outlines/bitmaps/SVG, names, metrics, variations, ppem) and shaped in three directions, all under tick and allocation budgets linear in the image size. Families: (systematic) truncation at every table boundary +-{0,1,2,4}, inside every table header and at every directory record, walked by run index (quick: a VERIF_SEED-chosen window of 2500; thorough: the complete list); (pristine) fault-free, must equal a bytes.Reader load; (random) 1-3 stored-byte faults (truncation, bit flip, 16/32-bit field overwrite with boundary values, zeroed sector, swapped table bodies; 75% aimed at table headers, directory records and boundaries) and 0-2 transient I/O faults (EIO, early EOF, legal short read at the k-th call). distinct = distinct hash of the case; non-trivial = a stored-byte fault was applied or an I/O fault actually fired (or pristine equivalence was checked).",
+		Assumptions: []string{
+			"step budget 40M + 4000 ticks/byte and allocation budget 256 MiB + 600 B/byte of image; calibrated on the pristine corpus (evidence: other_counters.ticks)",
+			"go/ast text-splice instrumentation preserves semantics (the pristine family compares against an uninstrumented-reader load inside the same build; the baseline suite is not run on the instrumented copy)",
+			"time spent inside the standard library (zlib for WOFF) is only covered by the wall-clock backstop",
+			"panic sites listed in known_findings.json are printed as KNOWN-FINDING, any other site is a violation",
+		},
+		Real:        []string{"font/opentype loader (sfnt, TTC, WOFF, dfont)", "font.NewFont and all table parsers", "font.Face queries (cmap, metrics, glyf/CFF/CFF2 outlines, bitmaps, SVG, names, variations)", "shaping.HarfbuzzShaper + harfbuzz", "fontscan.FontMap.AddFont"},
+		Stub:        []string{"the disk (faultdisk.File behind opentype.Resource)"},
+		TimeMeasure: "ticks = instrumented yield points executed (function entries + loop iterations)",
+		StateRule:   "distinct (container kind, faulted table tag, fault kind, outcome in {open-error, opened}) tuples",
+	}
+}
